@@ -181,13 +181,13 @@ def main(tier, seed):
         pool.append((f"points:{n}", pygaps.PointIsotherm(pressure=pgrid, loading=m.loading(pgrid), branch="ads", **BASE)))
     pvals = [0.1, 0.5, 1.0, 2.0, 5.0]
 
-    def observe(isos, p, load):
-        """the input isotherms' own answers at p_i / x_i"""
+    def observe(isos, p, load, branch="ads"):
+        """the input isotherms' own answers at p_i / x_i, on the branch the calculation was asked for"""
         load = numpy.asarray(load, dtype=float)
         x = load / load.sum()
         p0 = numpy.asarray(p, dtype=float) / x
-        pi = [float(i.spreading_pressure_at(q)) for i, q in zip(isos, p0)]
-        n0 = [float(i.loading_at(q)) for i, q in zip(isos, p0)]
+        pi = [float(i.spreading_pressure_at(q, branch=branch)) for i, q in zip(isos, p0)]
+        n0 = [float(i.loading_at(q, branch=branch)) for i, q in zip(isos, p0)]
         return p0, pi, n0
 
     def guesses(n):
@@ -295,58 +295,177 @@ def main(tier, seed):
             run.count(("inverse2", key))
             add({"k": "close", "a": enc(load), "b": enc(fwd)}, {"site": "iast_point_fraction", "config": cfg + ", inverse of reverse_iast", "components": names, "x": x.tolist(), "P": P})
 
-    # ================= 4. helpers
-    binaries = [[rational_iso("langmuir", [2, 1], [1, 2]), rational_iso("langmuir", [2, 1], [3, 1])],
-                [rational_iso("henry", [1, 1], [1, 2]), rational_iso("henry", [1, 1], [3, 1])]]
-    for _ in range(10 if thorough else 4):
-        binaries.append([c[1] for c in rng.sample(pool, 2)])
-    for bi, isos in enumerate(binaries):
-        cfg = "binary helper"
-        for y in ([0.25, 0.75], [0.5, 0.5], [0.1, 0.9]):
-            pressures = [0.5, 1.0, 2.0, 5.0][: 4 if thorough else 3]
-            out = attempt("iast_binary_svp", cfg, lambda: ia.iast_binary_svp(isos, y, pressures, warningoff=True), False)
-            run.count(("svp", bi, tuple(y)), nontrivial=out is not None)
-            if out is None:
-                continue
-            exp = []
-            ok = True
-            for P in pressures:
-                l = attempt("iast_point", cfg, lambda: ia.iast_point(isos, numpy.asarray(y) * P, warningoff=True), False)
-                if l is None:
-                    ok = False
-                    break
-                exp.append((l[0] / numpy.asarray(y)[0]) / (l[1] / numpy.asarray(y)[1]))
-            if not ok:
-                continue
-            got = [float(s) for s in out["selectivity"]]
-            add({"k": "same", "a": enc(exp), "b": enc(got)}, {"site": "iast_binary_svp", "config": cfg})
-            add({"k": "same", "a": enc(pressures), "b": enc(list(out["pressure"]))}, {"site": "iast_binary_svp", "config": cfg + " (pressure axis)"})
-            if [float(e) for e in exp] != got:
-                run.violation({"site": "iast_binary_svp", "config": cfg, "observed": "helper_differs_from_point_calculation"}, {"expected": [float(e) for e in exp], "returned": got})
-        for P in ([1.0, 3.0] if thorough else [1.0 + bi % 2]):
-            k = 7 if thorough else 5
-            out = attempt("iast_binary_vle", cfg, lambda: ia.iast_binary_vle(isos, P, npoints=k, warningoff=True), False)
-            run.count(("vle", bi, P), nontrivial=out is not None)
-            if out is None:
-                continue
-            ys = numpy.linspace(0.01, 0.99, k)
+    # ================= 4. helpers, default arguments, two-branch point isotherms
+    def same(site, cfg, a, b, detail):
+        """helper output b must be exactly the point calculation a (TLC on the encodings, float64 bit-for-bit here)"""
+        a = [float(v) for v in a]
+        b = [float(v) for v in b]
+        add({"k": "same", "a": enc(a), "b": enc(b)}, {"site": site, "config": cfg})
+        if a != b:
+            run.violation({"site": site, "config": cfg, "observed": "helper_differs_from_point_calculation"}, {"point_calculation": a, "helper": b, **detail})
+
+    def helper_call(site, cfg, fn, detail):
+        """the point calculations behind this helper call all returned: the helper must return too"""
+        try:
+            return fn()
+        except Exception as e:
+            run.violation({"site": site, "config": cfg, "observed": "helper raises although the point calculation returns: " + exc_class(e)},
+                          {"message": str(e)[:200], **detail})
+            return None
+
+    def check_helpers(isos, cfg, bkw, beff, ys, plists, vleP, npts, tag):
+        for y in ys:
+            ya = numpy.asarray(y)
+            for pl in plists:
+                exp = []
+                for P in pl:
+                    l = attempt("iast_point", cfg, lambda: ia.iast_point(isos, ya * P, branch=beff, warningoff=True), False)
+                    if l is None:
+                        exp = None
+                        break
+                    exp.append((l[0] / ya[0]) / (l[1] / ya[1]))
+                run.count(("svp", tag, tuple(y), tuple(pl), tuple(bkw.items())), nontrivial=exp is not None and list(pl) != sorted(pl))
+                if exp is None:
+                    continue
+                detail = {"pressures": list(pl), "gas_fractions": list(y), "arguments": dict(bkw)}
+                out = helper_call("iast_binary_svp", cfg, lambda: ia.iast_binary_svp(isos, y, list(pl), warningoff=True, **bkw), detail)
+                if out is None:
+                    continue
+                same("iast_binary_svp", cfg, exp, out["selectivity"], detail)
+                same("iast_binary_svp", cfg + " (pressure axis)", pl, list(out["pressure"]), detail)
+        for P in vleP:
+            ysg = numpy.linspace(0.01, 0.99, npts)
             ex = [0.0]
-            ok = True
-            for yy in ys:
-                l = attempt("iast_point", cfg, lambda: ia.iast_point(isos, numpy.asarray([yy, 1 - yy]) * P, warningoff=True), False)
+            for yy in ysg:
+                l = attempt("iast_point", cfg, lambda: ia.iast_point(isos, numpy.asarray([yy, 1 - yy]) * P, branch=beff, warningoff=True), False)
                 if l is None:
-                    ok = False
+                    ex = None
                     break
                 ex.append(l[0] / (l[0] + l[1]))
-            if not ok:
+            run.count(("vle", tag, P, tuple(bkw.items())), nontrivial=ex is not None)
+            if ex is None:
                 continue
             ex.append(1.0)
-            ey = [0.0] + list(ys) + [1.0]
-            add({"k": "same", "a": enc(ex), "b": enc(list(out["x"]))}, {"site": "iast_binary_vle", "config": cfg})
-            add({"k": "same", "a": enc(ey), "b": enc(list(out["y"]))}, {"site": "iast_binary_vle", "config": cfg + " (gas fraction axis)"})
-            if [float(v) for v in ex] != [float(v) for v in out["x"]] or [float(v) for v in ey] != [float(v) for v in out["y"]]:
-                run.violation({"site": "iast_binary_vle", "config": cfg, "observed": "helper_differs_from_point_calculation"},
-                              {"expected_x": [float(v) for v in ex], "returned_x": [float(v) for v in out["x"]]})
+            detail = {"total_pressure": P, "npoints": npts, "arguments": dict(bkw)}
+            out = helper_call("iast_binary_vle", cfg, lambda: ia.iast_binary_vle(isos, P, npoints=npts, warningoff=True, **bkw), detail)
+            if out is None:
+                continue
+            same("iast_binary_vle", cfg, ex, list(out["x"]), detail)
+            same("iast_binary_vle", cfg + " (gas fraction axis)", [0.0] + list(ysg) + [1.0], list(out["y"]), detail)
+
+    # pressure lists in every arrangement: entry k of the result must belong to entry k of the input
+    base_p = [0.5, 1.0, 2.0, 5.0]
+    shuffled = base_p[:]
+    rng.shuffle(shuffled)
+    arrangements = [base_p, base_p[::-1], shuffled if shuffled not in (base_p, base_p[::-1]) else [2.0, 0.5, 5.0, 1.0], [2.0, 0.5, 2.0, 5.0, 0.5]]
+    byname = dict(pool)
+    binaries = [("langmuir unequal capacity", [byname["Langmuir#0"], byname["Langmuir#1"]]),        # selectivity depends on pressure
+                ("toth + langmuir", [byname["Toth#0"], byname["Langmuir#0"]]),
+                ("point isotherms", [byname["points:Langmuir"], byname["points:Toth"]]),
+                ("langmuir equal capacity", [rational_iso("langmuir", [2, 1], [1, 2]), rational_iso("langmuir", [2, 1], [3, 1])]),
+                ("henry", [rational_iso("henry", [1, 1], [1, 2]), rational_iso("henry", [1, 1], [3, 1])])]
+    for j in range(10 if thorough else 3):
+        pair = rng.sample(pool, 2)
+        binaries.append((pair[0][0] + "+" + pair[1][0], [c[1] for c in pair]))
+    for bi, (tag, isos) in enumerate(binaries):
+        ys = [[0.25, 0.75], [0.5, 0.5], [0.1, 0.9]] if thorough else [[0.25, 0.75], [[0.5, 0.5], [0.1, 0.9]][(bi + seed) % 2]]
+        pls = arrangements if thorough else [arrangements[1 + (bi + seed) % 3], arrangements[(bi + seed + 1) % 4]]
+        check_helpers(isos, "binary helper", {}, "ads", ys, pls, [1.0, 3.0] if thorough else [1.0 + bi % 2], 7 if thorough else 5, tag)
+
+    # ---- two-branch (hysteresis) point isotherms: default arguments, branch='ads', branch='des'
+    hgrid = numpy.concatenate([numpy.linspace(0.05, 1, 12), numpy.linspace(1.5, 400, 60)])
+
+    def hysteresis(name, pa, pd, des_ascending):
+        a = get_isotherm_model(name, parameters=dict(pa)).loading(hgrid)
+        pdes = hgrid[:-1] if des_ascending else hgrid[::-1][1:]
+        d = get_isotherm_model(name, parameters=dict(pd)).loading(pdes)
+        return pygaps.PointIsotherm(pressure=numpy.concatenate([hgrid, pdes]), loading=numpy.concatenate([a, d]),
+                                    branch=[False] * len(hgrid) + [True] * len(pdes), **BASE)
+
+    hpool = []
+    for asc in (True, False):
+        t = "stored ascending" if asc else "stored descending"
+        hpool.append((f"hysteresis:Langmuir ({t})", hysteresis("Langmuir", {"K": 0.5, "n_m": 2.0}, {"K": 1.0, "n_m": 2.2}, asc), asc))
+        hpool.append((f"hysteresis:Toth ({t})", hysteresis("Toth", {"n_m": 5.0, "K": 0.5, "t": 2.0}, {"n_m": 5.0, "K": 1.5, "t": 2.0}, asc), asc))
+        hpool.append((f"hysteresis:DSLangmuir ({t})", hysteresis("DSLangmuir", PAR["DSLangmuir"][0], {"n_m1": 1.0, "K1": 1.5, "n_m2": 2.0, "K2": 9.0}, asc), asc))
+    hmix = []
+    for asc in (True, False):
+        grp = [h for h in hpool if h[2] == asc]
+        hmix += [[grp[0], grp[1]], [grp[1], grp[2]], [grp[0], grp[1], grp[2]], [grp[2], grp[0]]]
+    mixed = [[hpool[0], ("Langmuir#1", byname["Langmuir#1"], None)], [("Toth#1", byname["Toth#1"], None), hpool[4], hpool[3]]]
+    for mi, comp in enumerate(hmix + mixed):
+        names = [c[0] for c in comp]
+        isos = [c[1] for c in comp]
+        n = len(isos)
+        has_model = any(c[2] is None for c in comp)
+        cfg = f"two-branch point isotherms, {n} components"
+        variants = [({}, "ads"), ({"branch": "ads"}, "ads")] + ([] if has_model else [({"branch": "des"}, "des")])
+        pts = [[1.0, 2.0, 0.5][:n], [0.2, 0.1, 3.0][:n]] + ([[5.0, 0.5, 1.0][:n]] if thorough else [])
+        results = {}
+        for bkw, beff in variants:
+            vt = "default arguments" if not bkw else "branch=" + bkw["branch"]
+            for p in pts:
+                p = numpy.array(p)
+                P = float(p.sum())
+                y = p / P
+                load = attempt("iast_point", cfg, lambda: ia.iast_point(isos, p, warningoff=True, **bkw), False)
+                run.count(("hyst", mi, vt, tuple(p.tolist())), nontrivial=load is not None)
+                if load is None:
+                    continue
+                load = numpy.asarray(load, dtype=float)
+                results[(vt, tuple(p.tolist()))] = load
+                if not (numpy.all(numpy.isfinite(load)) and load.sum() > 0):
+                    run.violation({"site": "iast_point", "config": cfg + ", " + vt, "observed": "returned loadings are not finite positive numbers"},
+                                  {"components": names, "p": p.tolist(), "returned": load.tolist()})
+                    continue
+                try:
+                    p0, pi, n0 = observe(isos, p, load, branch=beff)
+                except Exception as e:
+                    run.violation({"site": "iast_point", "config": cfg + ", " + vt,
+                                   "observed": "input isotherms cannot be evaluated on the requested branch at p_i/x_i of the returned result: " + exc_class(e)},
+                                  {"components": names, "p": p.tolist(), "returned": load.tolist(), "message": str(e)[:200]})
+                    continue
+                add({"k": "point", "p": enc(p), "load": enc(load), "p0": enc(p0), "pi": enc(pi), "n0": enc(n0)},
+                    {"site": "iast_point", "config": cfg + ", " + vt, "components": names, "p": p.tolist()})
+                # the fraction helper with the same arguments = the point calculation on that branch
+                detail = {"components": names, "gas_fractions": y.tolist(), "total_pressure": P, "arguments": dict(bkw)}
+                direct = attempt("iast_point", cfg, lambda: ia.iast_point(isos, numpy.asarray(y) * P, branch=beff, warningoff=True), False)
+                if direct is not None:
+                    viaf = helper_call("iast_point_fraction", cfg + ", " + vt, lambda: ia.iast_point_fraction(isos, y, P, warningoff=True, **bkw), detail)
+                    if viaf is not None:
+                        run.count(("hyst-fraction", mi, vt, tuple(p.tolist())))
+                        same("iast_point_fraction", cfg + ", " + vt, direct, viaf, detail)
+                # reverse problem with the same arguments
+                x = load / load.sum()
+                if float(numpy.sum(x)) != 1.0:
+                    x = x.copy()
+                    x[-1] = 1.0 - float(numpy.sum(x[:-1]))
+                if float(numpy.sum(x)) == 1.0:
+                    back = attempt("reverse_iast", cfg, lambda: ia.reverse_iast(isos, x, P, warningoff=True, **bkw), False)
+                    if back is not None:
+                        yb, lb = (numpy.asarray(v, dtype=float) for v in back)
+                        run.count(("hyst-reverse", mi, vt, tuple(p.tolist())))
+                        if numpy.all(numpy.isfinite(lb)) and lb.sum() > 0 and numpy.all(numpy.isfinite(yb)):
+                            try:
+                                q0, qi, m0 = observe(isos, yb * P, lb, branch=beff)
+                                add({"k": "revobs", "x": enc(x), "P": dec_enc(P), "y": enc(yb), "p": enc(yb * P), "load": enc(lb), "p0": enc(q0), "pi": enc(qi), "n0": enc(m0)},
+                                    {"site": "reverse_iast", "config": cfg + ", " + vt, "components": names, "x": x.tolist(), "P": P})
+                            except Exception as e:
+                                run.violation({"site": "reverse_iast", "config": cfg + ", " + vt,
+                                               "observed": "input isotherms cannot be evaluated on the requested branch at p_i/x_i of the returned result: " + exc_class(e)},
+                                              {"components": names, "x": x.tolist(), "P": P})
+                        results[("rev", vt, tuple(p.tolist()))] = numpy.concatenate([yb, lb])
+        # default arguments mean the adsorption branch
+        for key, val in list(results.items()):
+            if key[0] == "default arguments" or (key[0] == "rev" and key[1] == "default arguments"):
+                twin = ("branch=ads",) + key[1:] if key[0] != "rev" else ("rev", "branch=ads") + key[2:]
+                if twin in results:
+                    same("reverse_iast" if key[0] == "rev" else "iast_point", cfg + ", default arguments vs branch=ads", results[twin], val, {"components": names})
+        if n == 2:
+            for bkw, beff in variants:
+                vt = "default arguments" if not bkw else "branch=" + bkw["branch"]
+                check_helpers(isos, cfg + ", " + vt, bkw, beff, [[0.25, 0.75]], [arrangements[1], arrangements[2]] if thorough else [arrangements[1 + (mi + seed) % 2]],
+                              [2.0], 5, ("hyst", mi))
 
     # ================= judge
     answers = tlc.oracle("IastOracle", judge_recs, timeout=900, chunk=5000) if judge_recs else []
